@@ -44,7 +44,9 @@ func c14Run(sc *C14Scenario) *c14Outcome {
 	simrt.Load((&Tape{}).config())
 	var refM *ir.Module
 	var err error
-	simCall(func() { refM, _, err = runProgramAlone(sc.Prog) })
+	if c, msg := simCallSafe(func() { refM, _, err = runProgramAlone(sc.Prog) }); c {
+		err = fmt.Errorf("%s", msg)
+	}
 	if err != nil {
 		out.skip = "construction program panics without any observer (generator problem or C03)"
 		out.detail = err.Error()
@@ -201,6 +203,7 @@ func c14Search() {
 		sum.Counters["builder steps applied"] += int64(o.stepsApplied)
 		sum.Counters["observer calls applied"] += int64(o.obsApplied)
 		sum.Counters["context switches (builder <-> observer)"] += o.stats.Switches
+		countChans(sum, o.stats)
 		for k, v := range o.probes {
 			if v > 0 {
 				sum.Probes[k]++
